@@ -801,6 +801,20 @@ def oracle_regex(case, obs):
         if obs["match"] is None and full:
             out.append(("re pattern %r does not bind %r although it matches the complete text" % (render_rx(case["rx"]), text),
                         "matching-definition-not-found"))
+    # one argument per group, in group order (= text order of the opening parentheses), with the span Python's re reports
+    if obs.get("match") is not None:
+        if case["kind"] == "re":
+            ref = re.fullmatch("(?:%s)" % render_rx(case["rx"]), text)
+        else:
+            body = "(?:%s)" % render_rx(case["rx"]) if case["rx"][0] == "alt" else render_rx(case["rx"])
+            ref = re.match("^" + body + ("$" if case["end"] else ""), text)
+        if ref is not None:
+            names = {i: n for n, i in ref.re.groupindex.items()}
+            want = [[(ref.span(i) if ref.span(i)[0] >= 0 else None), names.get(i)] for i in range(1, ref.re.groups + 1)]
+            got = [[((a[0], a[1]) if (a[0] is not None and a[0] >= 0) else None), a[3]] for a in obs["match"]]
+            if got != want:
+                out.append(("pattern %r on %r: arguments (span, name) %r, the groups in group order are %r" % (obs["pattern"], text, got, want),
+                            "arguments-not-in-group-order"))
     for a in obs["match"] or []:
         if a[0] is not None and a[0] >= 0 and text[a[0]:a[1]] != a[2]:
             out.append(("argument %r: text[%d:%d] is %r, original %r" % (a[3], a[0], a[1], text[a[0]:a[1]], a[2]), "span-does-not-delimit-original"))
